@@ -1025,6 +1025,10 @@ def run_case(case, ctx):
     # the identity of the cores
     if not edge and d <= 300 and d % 2 == 0:
         shared_objects(ctx, teneva, rng, d)
+    # operands of different dtypes (a float32 or integer-typed copy against
+    # float64 cores): the values decide
+    if not edge and 3 <= d <= 1000:
+        mixed_dtypes(ctx, teneva, rng, d)
 
     # power-of-two metamorphic tests (core families only: an edge family is
     # outside the range where every local product is exact under scaling)
@@ -1086,6 +1090,30 @@ def shared_objects(ctx, teneva, rng, d):
         for a_, b_ in zip(Ysh[:2], snap)), 'a routine modified the shared '
         'core objects of its argument')
     ctx.event('shared-core-objects')
+
+
+def mixed_dtypes(ctx, teneva, rng, d):
+    n = [int(rng.integers(1, 4)) for _ in range(d)]
+    r = [1] + [int(rng.integers(1, 4)) for _ in range(d - 1)] + [1]
+    ex = int(rng.integers(-20, 21))
+    # (integer-typed cores as the FIRST operand only: as the second one the
+    # library negates a copy in place, which numpy refuses for integer arrays;
+    # float32 cores are contracted in float32 by the stabilised routines, so
+    # their results carry float32 rounding - both outside this check)
+    kind = ['int64', 'int32', 'int16'][int(rng.integers(3))]
+    base = [rng.integers(-3, 4, size=(r[k], n[k], r[k + 1])).astype(kind)
+        for k in range(d)]
+    ex = 1
+    Y1v = [np.asarray(G, dtype=float) for G in base]       # the values
+    delta = float(10.0 ** rng.integers(-3, 0))
+    Y2 = [H + delta * np.ldexp(rng.normal(size=H.shape), ex) for H in Y1v]
+    N1, N2 = normcores(Y1v), normcores(Y2)
+    s11, s22, s12 = sweep(N1, N1), sweep(N2, N2), sweep(N1, N2)
+    check_accuracy(ctx, teneva, base, Y2, s11, s12, s22,
+        f'accuracy(Y1, Y2), Y1 of dtype {kind}, Y2 float64')
+    check_mul_scalar(ctx, teneva, base, Y2, s12, f'<Y1, Y2>, Y1 of dtype '
+        f'{kind}')
+    ctx.event('mixed-dtype-operands:' + kind)
 
 
 def accuracy_family(ctx, teneva, rng, Y, NY, sYY, info, edge):
